@@ -44,6 +44,8 @@ def classify(res, scs, reps, mons):
         # subscriptions that were NOT cancelled, in scenarios where some subscription was
         cancelled = any(t.startswith('ACancel') for t, _ in mo['hist'])
         if cancelled:
+            for i, code in mo['dup']:
+                res.violations.append(dict(signature='C07/cancel-affects-other-subscription', what='after another subscription was cancelled a subscription received a message again although it had not Nacked it (' + G.VNAME[code] + ')', case=G.readable(sc, mo['hist'], upto=i)))
             for x, p, code in mo['delivered']:
                 res.violations.append(dict(signature='C07/cancel-affects-other-subscription', what='subscription %d did not receive message %d although only another subscription was cancelled' % (x, p), case=case()))
         # the models reached a panic state while replaying what the code did
